@@ -102,8 +102,8 @@ def scenario_plan(ctx):
     compound at all), 1..5 classes with >= 2 compounds, and the two scenarios whose first soluble class lists a
     tracked compound it is released without (alone / mixed)."""
     base = [(2, 1, False), (3, 2, True)]
-    extra = [(2, 0, True), (1, 2, False), (2, 2, True), (1, 3, True), (3, 1, False), (1, 0, True),
-             (2, 3, False), (4, 1, True), (1, 4, False), (1, 1, True), (1, 0, False)]
+    extra = [(2, 0, True), (1, 2, True), (2, 2, True), (1, 3, True), (3, 1, False), (1, 0, True),
+             (2, 3, True), (4, 1, True), (1, 4, False), (1, 1, True), (1, 0, False)]
     r = ctx.rng
     b = r.random() < 0.5
     if ctx.thorough:
@@ -116,7 +116,7 @@ def scenario_plan(ctx):
     else:
         plan = [(1, 0, b, None, 'single'), (1, r.choice([1, 2]), not b, None, 'single'),
                 (0, r.choice([1, 2]), r.random() < 0.5, None, None),
-                base[1] + (None, 'multi'), r.choice([base[0]] + extra) + (None, 'multi'),
+                base[1] + (None, 'multi'), r.choice([t for t in extra if t[2]]) + (None, 'multi'),
                 (1, r.choice([0, 1]), True, 'alone', None), (r.choice([2, 3]), r.choice([0, 1]), True, 'mixed', None)]
     return plan
 
@@ -166,12 +166,14 @@ def make_cases(ctx, sc, sim, n):
         return cases
     strip = sc.spec.get('strip')
     alive = good
-    if strip:
-        # rows in which the stripping class still carries mass (a fully dissolved class exchanges nothing)
-        lay, _idiss = S.inner_layout(sc.particles, nchems)
-        l = lay[strip['class']]
-        m00 = float(np.sum(yis[good[0]][l['m0']:l['m0'] + l['nc']]))
-        alive = [k for k in good if np.sum(yis[k][l['m0']:l['m0'] + l['nc']]) > 1e-3 * m00] or good
+    lay, _idiss = S.inner_layout(sc.particles, nchems)
+    watch = [lay[strip['class']]] if strip else [l for l, pt in zip(lay, sc.particles) if pt.particle.issoluble]
+    if watch:
+        # rows in which the stripping class (or, elsewhere, every soluble class) still carries mass: a fully dissolved
+        # class exchanges nothing
+        def mass(k, l):
+            return float(np.sum(yis[k][l['m0']:l['m0'] + l['nc']]))
+        alive = [k for k in good if all(mass(k, l) > 1e-3 * mass(good[0], l) for l in watch)] or good
     zmin_i, zmax_i = float(np.min(zi)), float(np.max(zi))
     have_outer = sc.nb_o is not None and len(zo) > 1 and np.any(yos[:, 0] < 0)
     H = sc.spec['profile']['H']
@@ -197,8 +199,9 @@ def make_cases(ctx, sc, sim, n):
             yi_state = S.perturb_inner(r, sc, yis[k], strength=r.choice([0., 0.3, 1., 1.]))
             if strip:
                 # the plume water holds the compounds the stripping class was released without
+                comp = sc.spec['particles'][strip['class']]['composition']
                 for j in strip['zero']:
-                    jj = len(yi_state) - nchems + j
+                    jj = len(yi_state) - nchems + [str(x) for x in sc.chem_names].index(comp[j])
                     if not yi_state[jj] > 0.:
                         yi_state[jj] = 10 ** r.uniform(-6, -3) * yi_state[0]
             z = float(zi[k]) if r.random() < 0.6 else r.uniform(0.02, 0.98) * H
@@ -254,7 +257,7 @@ def snapshot(yi, yo, particles):
             'scal': [1. if sol else 0., fl(pt.A), fl(pt.nb0), fl(pt.us), fl(pt.rho_p), fl(pt.cp), fl(pt.beta_T), fl(pt.T)],
             'beta': vec(pt.beta), 'Cs': vec(pt.Cs),
             'ndh': vec(pt.particle.neg_dH_solR) if sol else [], 'M': vec(pt.particle.M) if sol else [],
-            'nc': int(pt.particle.nc),
+            'nc': int(pt.particle.nc), 'comp': [str(x) for x in pt.composition],
         })
     return rec
 
@@ -292,7 +295,27 @@ def oracle(sc, z, y_i, y_o, p):
                  's': so, 'T': To, 'c': [float(v) / Qo for v in y_o[4:]], 'rho': float(seawater.density(To, so, P))}
     else:
         outer = {'u': 0., 'b': 0., 's': Sa, 'T': Ta, 'c': list(ca), 'rho': rho_a}
-    return {'Ta': Ta, 'Sa': Sa, 'P': P, 'ca': ca, 'rho_a': rho_a, 'inner': inner, 'outer': outer}
+    # BY NAME, independently of the plume objects: the compounds tracked are those the soluble classes are made of; the
+    # ambient concentration of compound X is the profile queried for the name X; the plume's dissolved slot of X is the
+    # one its own label list `chem_names` gives to X
+    names = tracked_names(sc)
+    labels = [str(x) for x in sc.chem_names]
+    ca_named = {X: float(sc.profile.get_values(float(z), [X])[0]) for X in names}
+    ci_named = {X: inner['c'][labels.index(X)] for X in names if X in labels and labels.index(X) < len(inner['c'])}
+    co_named = {X: outer['c'][labels.index(X)] for X in names if X in labels and labels.index(X) < len(outer['c'])}
+    return {'Ta': Ta, 'Sa': Sa, 'P': P, 'ca': ca, 'rho_a': rho_a, 'inner': inner, 'outer': outer,
+            'tracked': names, 'labels': labels, 'ca_named': ca_named, 'ci_named': ci_named, 'co_named': co_named}
+
+
+def tracked_names(sc):
+    """the compounds of the soluble classes, by name, in order of first appearance (the harness's own list)"""
+    names = []
+    for pt in sc.particles:
+        if pt.particle.issoluble:
+            for x in pt.composition:
+                if str(x) not in names:
+                    names.append(str(x))
+    return names
 
 
 def raise_site(e):
@@ -377,7 +400,8 @@ def oracle_mismatches(rec, orc, which):
 
 
 def particle_sums(nchems, rec, ri, Ru):
-    """walk the particle block of the inner vector with the index arithmetic of InnerPlume.update"""
+    """POSITIONAL walk of the particle block of the inner vector with the index arithmetic of InnerPlume.update
+    (used only to cross-check the slot readers of the Lean theorems)"""
     idx = 4
     heat_sum = hos = sc_heat = 0.
     mass = [0.] * nchems
@@ -397,16 +421,43 @@ def particle_sums(nchems, rec, ri, Ru):
     return idx, mass, sc_mass, heat_sum, hos, sc_heat
 
 
-def identities(pv, nchems, rec, orc, ri, ro):
+def named_sums(rec, ri, Ru, names):
+    """BY NAME: for every tracked compound X the sum over the soluble classes of the mass slot the class's OWN
+    composition list gives to X; the particle heat slots; the heat of solution (each class's own neg_dH_solR, M,
+    which are ordered like its composition).  Returns (index of dissolved slot 0, mass{X}, scale{X}, heat, hos, scale)"""
+    idx = 4
+    heat_sum = hos = sc_heat = 0.
+    mass = {X: 0. for X in names}
+    sc_mass = {X: 0. for X in names}
+    for q in rec['particles']:
+        nc = q['nc']
+        if q['scal'][0] > 0.5:
+            for k in range(nc):
+                X = q['comp'][k]
+                if X in mass:
+                    mass[X] += ri[idx + k]
+                    sc_mass[X] += abs(ri[idx + k])
+                t = ri[idx + k] * q['ndh'][k] * Ru / q['M'][k]
+                hos += t
+                sc_heat += abs(t)
+        heat_sum += ri[idx + nc]
+        sc_heat += abs(ri[idx + nc])
+        idx += nc + 5
+    return idx, mass, sc_mass, heat_sum, hos, sc_heat
+
+
+def identities(pv, rec, orc, ri, ro):
     """[(name, lhs, rhs, scale)] — the exchange identities on the vectors the real code returned, with the
-    ORACLE ambient values and ORACLE b_o, u_o on the right-hand side.  `scale` = sum of |terms| (the returned
-    slots, the right-hand side and the fluxes that make them up).  alpha_s, Ep are the closures' values."""
+    ORACLE ambient values and ORACLE b_o, u_o on the right-hand side.  Every per-compound quantity is formed BY NAME:
+    particle side of X from the class's own composition.index(X) slot, dissolved side from the plumes' slot labelled X
+    (chem_names.index(X)), ambient concentration from the profile queried for X.  `scale` = sum of |terms| (the
+    returned slots, the right-hand side and the fluxes that make them up).  alpha_s, Ep are the closures' values."""
     c1, a2, a3, gi, go, l2, g, rho_r, Ru, cp = pv
     als, Ep = rec['inner'][6], rec['inner'][7]
     I, O = orc['inner'], orc['outer']
-    bi, ui, si, Ti, ci = I['b'], I['u'], I['s'], I['T'], I['c']
-    bo, uo, so, To, co = O['b'], O['u'], O['s'], O['T'], O['c']
-    Sa, Ta, ca = orc['Sa'], orc['Ta'], orc['ca']
+    bi, ui, si, Ti = I['b'], I['u'], I['s'], I['T']
+    bo, uo, so, To = O['b'], O['u'], O['s'], O['T']
+    Sa, Ta = orc['Sa'], orc['Ta']
     E = 2. * math.pi * bo * a3 * uo
     ent = abs(2. * math.pi * bi * als * (ui + c1 * uo))      # |entrainment from outer into inner|
     det = abs(2. * math.pi * bi * a2 * uo)                   # |detrainment from inner to outer|
@@ -414,39 +465,44 @@ def identities(pv, nchems, rec, orc, ri, ro):
     out.append(('volume', ri[0] + ro[0], E, abs(ri[0]) + abs(ro[0]) + abs(E) + ent + det + abs(Ep)))
     out.append(('salt', ri[2] + ro[2], E * Sa,
                 abs(ri[2]) + abs(ro[2]) + abs(E * Sa) + ent * abs(so) + det * abs(si) + abs(Ep * si)))
-    idx, mass, sc_mass, heat_sum, hos, sc_heat = particle_sums(nchems, rec, ri, Ru)
+    idx, mass, sc_mass, heat_sum, hos, sc_heat = named_sums(rec, ri, Ru, orc['tracked'])
     rc = rho_r * cp
     out.append(('heat', ri[3] + heat_sum + ro[3], rc * E * Ta - hos,
                 abs(ri[3]) + abs(ro[3]) + abs(rc * E * Ta) + sc_heat + rc * (ent * abs(To) + det * abs(Ti) + abs(Ep * Ti))))
-    for j in range(nchems):
-        out.append(('compound', ri[idx + j] + mass[j] + ro[4 + j], E * ca[j],
-                    abs(ri[idx + j]) + abs(ro[4 + j]) + sc_mass[j] + abs(E * ca[j]) + ent * abs(co[j]) + det * abs(ci[j]) + abs(Ep * ci[j])))
+    for X in orc['tracked']:
+        j = orc['labels'].index(X)
+        ca, ci, co = orc['ca_named'][X], orc['ci_named'][X], orc['co_named'][X]
+        out.append(('compound', ri[idx + j] + mass[X] + ro[4 + j], E * ca,
+                    abs(ri[idx + j]) + abs(ro[4 + j]) + sc_mass[X] + abs(E * ca) + ent * abs(co) + det * abs(ci) + abs(Ep * ci)))
     return out, idx
 
 
-def absent_predicates(pv, nchems, rec, orc, ri, idiss):
+def absent_predicates(pv, rec, orc, ri, idiss):
     """with no outer plume the inner plume exchanges with the AMBIENT: the inner vector alone must equal
-    -(2 pi b alpha_s u * ambient value at this depth + Ep * plume value) (+ particle terms, which cancel in the totals)"""
+    -(2 pi b alpha_s u * ambient value at this depth + Ep * plume value) (+ particle terms, which cancel in the totals);
+    per compound BY NAME"""
     c1, a2, a3, gi, go, l2, g, rho_r, Ru, cp = pv
     als, Ep = rec['inner'][6], rec['inner'][7]
     I = orc['inner']
-    bi, ui, si, Ti, ci = I['b'], I['u'], I['s'], I['T'], I['c']
-    Sa, Ta, ca = orc['Sa'], orc['Ta'], orc['ca']
+    bi, ui, si, Ti = I['b'], I['u'], I['s'], I['T']
+    Sa, Ta = orc['Sa'], orc['Ta']
     en = 2. * math.pi * bi * als * ui
     out = [('absent-volume', ri[0], -(en + Ep), abs(en) + abs(Ep) + abs(ri[0])),
            ('absent-salt', ri[2], -(en * Sa + Ep * si), abs(en * Sa) + abs(Ep * si) + abs(ri[2]))]
-    idx, mass, sc_mass, heat_sum, hos, scale_h = particle_sums(nchems, rec, ri, Ru)
+    idx, mass, sc_mass, heat_sum, hos, scale_h = named_sums(rec, ri, Ru, orc['tracked'])
     rc = rho_r * cp
     out.append(('absent-heat', ri[3] + heat_sum, -rc * (en * Ta + Ep * Ti) - hos,
                 abs(ri[3]) + scale_h + rc * (abs(en * Ta) + abs(Ep * Ti))))
-    for j in range(nchems):
-        out.append(('absent-compound', ri[idiss + j] + mass[j], -(en * ca[j] + Ep * ci[j]),
-                    abs(ri[idiss + j]) + sc_mass[j] + abs(en * ca[j]) + abs(Ep * ci[j])))
+    for X in orc['tracked']:
+        j = orc['labels'].index(X)
+        ca, ci = orc['ca_named'][X], orc['ci_named'][X]
+        out.append(('absent-compound', ri[idiss + j] + mass[X], -(en * ca + Ep * ci),
+                    abs(ri[idiss + j]) + sc_mass[X] + abs(en * ca) + abs(Ep * ci)))
     return out
 
 
-def inner_absent_predicates(pv, nchems, orc, ro):
-    """without an inner plume the outer plume exchanges with the ambient alone: outer = E*(1, Sa, rho_r cp Ta, ca)"""
+def inner_absent_predicates(pv, orc, ro):
+    """without an inner plume the outer plume exchanges with the ambient alone: outer = E*(1, Sa, rho_r cp Ta, ca_X)"""
     c1, a2, a3, gi, go, l2, g, rho_r, Ru, cp = pv
     O = orc['outer']
     E = 2. * math.pi * O['b'] * a3 * O['u']
@@ -454,8 +510,9 @@ def inner_absent_predicates(pv, nchems, orc, ro):
     out = [('inner-absent-volume', ro[0], E, abs(ro[0]) + abs(E)),
            ('inner-absent-salt', ro[2], E * orc['Sa'], abs(ro[2]) + abs(E * orc['Sa'])),
            ('inner-absent-heat', ro[3], rc * E * orc['Ta'], abs(ro[3]) + abs(rc * E * orc['Ta']))]
-    for j in range(nchems):
-        out.append(('inner-absent-compound', ro[4 + j], E * orc['ca'][j], abs(ro[4 + j]) + abs(E * orc['ca'][j])))
+    for X in orc['tracked']:
+        j = orc['labels'].index(X)
+        out.append(('inner-absent-compound', ro[4 + j], E * orc['ca_named'][X], abs(ro[4 + j]) + abs(E * orc['ca_named'][X])))
     return out
 
 
@@ -469,19 +526,36 @@ def closures_finite(rec):
 
 
 def stripping_active(sc, rec, orc):
-    """does some soluble class list a tracked compound j it was released without (m0_j == 0) while the inner plume water
-    holds j and the class exchanges it?  returns False | 'water' | 'background' (ambient holds j too)"""
+    """does some soluble class list a tracked compound X it was released without (m0 == 0) while the inner plume water
+    holds X and the class exchanges it?  returns False | 'water' | 'background' (ambient holds X too).  By name."""
     out = False
     for pt, q in zip(sc.particles, rec['particles']):
         if q['scal'][0] < 0.5 or not q['scal'][1] > 0:
             continue
         m0 = np.asarray(pt.m0, dtype=float)
-        for j in range(min(len(m0), len(rec['inner_c']), len(q['beta']))):
-            if m0[j] == 0. and rec['inner_c'][j] > 0. and q['beta'][j] > 0.:
-                if j < len(orc['ca']) and orc['ca'][j] > 0.:
+        for k in range(min(len(m0), len(q['beta']), len(q['comp']))):
+            X = q['comp'][k]
+            if m0[k] == 0. and orc['ci_named'].get(X, 0.) > 0. and q['beta'][k] > 0.:
+                if orc['ca_named'].get(X, 0.) > 0.:
                     return 'background'
                 out = 'water'
     return out
+
+
+def relabel_sensitive(sc, rec, orc):
+    """does this state tell a relabelling of the compounds apart?  some soluble class has a composition of >= 2 compounds
+    that is NOT in alphabetical order, the ambient concentrations of the tracked compounds are pairwise distinct, and a
+    soluble class with surface area has pairwise distinct solubilities"""
+    comps = [q['comp'] for q in rec['particles'] if q['scal'][0] > 0.5]
+    if not any(len(c) >= 2 and list(c) != sorted(c) for c in comps):
+        return False
+    ca = [orc['ca_named'][X] for X in orc['tracked']]
+    if len(ca) < 2 or len(set(ca)) != len(ca):
+        return False
+    for q in rec['particles']:
+        if q['scal'][0] > 0.5 and q['scal'][1] > 0 and len(q['Cs']) >= 2 and len(set(q['Cs'])) == len(q['Cs']):
+            return True
+    return False
 
 
 def in_domain(nchems, rec, with_particles=True):
@@ -540,26 +614,31 @@ def evaluate_predicates(sc, case, res):
                     % (name, got, label, want))
             fails.append((key, what, {'attribute': name, 'code': got, 'oracle': want, 'when': label}))
     kind = case['kind']
+    if sorted(orc['tracked']) != sorted(orc['labels']):
+        fails.append(('tracked-compounds-differ', 'the plumes track %r but the soluble classes are made of %r' % (orc['labels'], orc['tracked']),
+                      {'chem_names': orc['labels'], 'compounds of the soluble classes': orc['tracked']}))
+        return fails, evald, None
     if kind.startswith('inner-absent'):
-        preds = inner_absent_predicates(res['pv'], nchems, orc, res['ro'])
+        preds = inner_absent_predicates(res['pv'], orc, res['ro'])
         evald += preds
         for name, lhs, rhs, scale in preds:
             if not holds(lhs, rhs, scale):
                 fails.append((name + '-not-ambient', 'without an inner plume the outer %s gradient is not the ambient entrainment alone' % name,
                               {'identity': name, 'lhs': lhs, 'rhs': rhs, 'sum_abs_terms': scale}))
         return fails, evald, None
-    ids, idiss = identities(res['pv'], nchems, res['recB'], orc, res['ri'], res['ro'])
+    ids, idiss = identities(res['pv'], res['recB'], orc, res['ri'], res['ro'])
     evald += ids
     for k, (name, lhs, rhs, scale) in enumerate(ids):
         if not holds(lhs, rhs, scale):
             j = k - 3 if name == 'compound' else None
+            cname = orc['tracked'][j] if j is not None else None
             fails.append(('exchange-%s-not-conservative' % name,
                           'inner + outer %s gradients differ from the ambient entrainment into the outer plume' % name
-                          + (' (compound %s)' % sc.chem_names[j] if j is not None else ''),
+                          + (' (compound %s, by name)' % cname if j is not None else ''),
                           {'identity': name, 'lhs(inner+outer)': lhs, 'rhs(ambient entrainment)': rhs, 'sum_abs_terms': scale,
                            'relative_residual': abs(lhs - rhs) / scale if scale else 0.}))
     if res['y_o'][0] >= 0 or kind == 'outer-absent-above':
-        ap = absent_predicates(res['pv'], nchems, res['recA'], orc, res['ri'], idiss)
+        ap = absent_predicates(res['pv'], res['recA'], orc, res['ri'], idiss)
         evald += ap
         for name, lhs, rhs, scale in ap:
             if not holds(lhs, rhs, scale):
@@ -619,11 +698,13 @@ def probe_heterogeneous(ctx):
 def run(ctx, lean_ok):
     r = ctx.rng
     plan = scenario_plan(ctx)
-    per_scen = ctx.n(170, 900)
+    per_scen = ctx.n(200, 1000)
     records = []          # (sc, case, res)
     seen = set()
     nsim_ok = 0
     nclosure_nan = 0
+    nsol_states = 0
+    nrelabel = 0
     done = {k: 0 for k in KINDS}
     nchem_done = {'nchems==0': 0, 'nchems==1': 0, 'nchems>=2': 0}
     nstrip = {'all': 0, 'alone': 0, 'mixed': 0, 'outer present': 0, 'outer absent': 0, 'background': 0}
@@ -653,7 +734,7 @@ def run(ctx, lean_ok):
         if sc.nb_i is None:
             sc.nb_o = None
         objs = S.plume_objects(sc, float(zi[0]), yis[0])
-        cases = make_cases(ctx, sc, sim, per_scen)
+        cases = make_cases(ctx, sc, sim, int(per_scen * (0.7 if comp == 'single' else (1.0 if (comp or strip) else 0.6))))
         for case in cases:
             ctx.evaluations += 1
             try:
@@ -703,6 +784,11 @@ def run(ctx, lean_ok):
                 ctx.count('ambient background concentration non-zero')
             if any(c != 0 for c in rb['outer_c']) and res['y_o'][0] < 0:
                 ctx.count('outer plume carries dissolved compounds')
+            if any(q['scal'][0] > 0.5 for q in rb['particles']):
+                nsol_states += 1
+                if relabel_sensitive(sc, rb, res['oracle']):
+                    nrelabel += 1
+                    ctx.count('relabel-sensitive state (unsorted composition >= 2, distinct ambient concentrations and solubilities)')
             sa = stripping_active(sc, rb, res['oracle'])
             res['strip'] = sa
             if sa and not kind.startswith('inner-absent'):
@@ -734,6 +820,10 @@ def run(ctx, lean_ok):
                not short, 'below the floor (done, floor): %r' % short)
     ctx.oblige('at least half of the %d scenarios were integrated by the real model' % len(plan),
                2 * nsim_ok >= len(plan), '%d of %d' % (nsim_ok, len(plan)))
+    ctx.oblige('floor: >= 50%% of the completed state pairs with a soluble class have a composition of >= 2 compounds that is not '
+               'alphabetically sorted, pairwise distinct ambient concentrations of the tracked compounds and pairwise distinct '
+               'solubilities, so that a relabelling of the compounds cannot cancel (%d of %d)' % (nrelabel, nsol_states),
+               nsol_states > 0 and 2 * nrelabel >= nsol_states, '%d of %d' % (nrelabel, nsol_states))
     ntot0 = len(records)
     needc = {'nchems==1': 0.05, 'nchems==0': 0.03, 'nchems>=2': 0.30}
     lowc = {k: (nchem_done[k], int(math.ceil(f * ntot0))) for k, f in needc.items() if nchem_done[k] < f * ntot0}
